@@ -185,7 +185,8 @@ def run(ck):
         "loaded value (a linear form over len(buf) and the configured length P) must equal P on the padding, truncation and exact paths and its "
         "content must be buf, buf + zero bytes, or the prefix buf[:P]. R01.3: no public method applies an in-place operation to a caller-owned "
         "buffer (aliasing tracked from the parameter). R01.4: command byte 0xA0/0xB0 by ask_no_ack, flags cleared first, CE pulse. R01.5: framing "
-        "of the four SPI primitives and of the spidev wrapper. R01.6 (= R10.6): read() sizes, fetches and clears RX_DR only. R01.7: list input.")
+        "of the four SPI primitives and of the spidev wrapper. R01.6 (= R10.6): read() sizes, fetches and clears RX_DR only. R01.7: list input. "
+        "R01.8 (= R02.4): for all 128 cached STATUS values send() flushes a failed or excess payload out of the TX FIFO before loading exactly the caller's.")
     ck.not_decided = ["that the peer's read() returns the bytes, exactly once, in order, attributed to the right pipe, for every channel / data rate / "
                       "CRC / address width - needs two radios and the air"]
     radio = Radio(ck)
@@ -198,6 +199,8 @@ def run(ck):
     n5 += spidev_wrapper(ck, agg)
     n6 = c10.read_fn(radio, agg)
     n7 = link.send_list(radio, agg)
+    # 'exactly once, in order': a payload that failed earlier must not be left in front of the next one (shared with C02/R02.4)
+    n8 = link.send_prologue(radio, agg, rule="R01.8")
     # FakeBLE.advertise takes caller buffers too
     ble = Radio(ck, "fake_ble", "FakeBLE")
     fadv = ck.prog.method(ble.cls, "advertise")
@@ -209,3 +212,4 @@ def run(ck):
     ck.floor("R01.5", "SPI primitives", n5, 5)
     ck.floor("R01.6", "read scenarios", n6, 40)
     ck.floor("R01.7", "list/tuple paths", n7, 2)
+    ck.floor("R01.8", "send() prologue scenarios", n8, 256)
